@@ -625,6 +625,27 @@ class DBusObject :
         if p.iprop.access not in ('write', 'readwrite'):
             raise Exception('Property is not Writeable')
 
+        # The value arrives unmarshalled from a variant of any type: accept
+        # it only if it is a value of the property's declared type
+        sig = p.iprop.sig
+        if len(sig) == 1 and sig != 'v':
+            if sig == 'b':
+                typeOk = isinstance(value, bool)
+            elif sig == 'd':
+                typeOk = isinstance(value, float)
+            elif sig in 'sog':
+                typeOk = isinstance(value, str)
+            else:
+                typeOk = (
+                    isinstance(value, int) and not isinstance(value, bool)
+                )
+            if not typeOk:
+                raise TypeError(
+                    'Property "%s" requires a value of type "%s"' %
+                    (propertyName, sig)
+                )
+        marshal.marshal(sig, [value])
+
         return setattr(self, p.attr_name, value)
 
     @dbusMethod('org.freedesktop.DBus.Properties', 'GetAll')
